@@ -357,6 +357,10 @@ def from_ast(e: ast.AST, env: Env) -> Term:
             return l * t_pow(r, Term.const(-1))
         if isinstance(e.op, ast.Pow):
             return t_pow(l, r)
+        if isinstance(e.op, ast.FloorDiv):
+            if l.is_const() and r.is_const() and r.const_value() != 0 and l.const_value().denominator == 1 and r.const_value().denominator == 1:
+                return Term.const(Fraction(int(l.const_value()) // int(r.const_value())))
+            return t_call('floordiv', [l, r])
         raise Unknown('binary operator %s' % type(e.op).__name__)
     if isinstance(e, ast.Call):
         fs = norm(e.func)
